@@ -5,6 +5,7 @@ TIER=${1:-quick}
 cd /verif
 for m in seeded/*/meta.json; do
   sid=$(basename $(dirname $m))
+  python3 -c "import json,sys;sys.exit(0 if json.load(open('$m')).get('retired') else 1)" && { echo "$sid retired"; continue; }
   props=$(python3 -c "import json;print(' '.join(sorted({x['property'] for x in json.load(open('$m'))['detected_by']})))")
   (cd /repo && git apply /verif/seeded/$sid/patch.diff) || { echo "$sid PATCH-DOES-NOT-APPLY"; continue; }
   for p in $props; do
